@@ -211,4 +211,5 @@ def replay(prop, path):
     log("stored trace:", "ACCEPTED" if r.accepted else f"REJECTED at line {r.line}: {r.event}")
     scen = [dict(rp["scenario"], id=i + 1, seed=rp["scenario"].get("seed", 0) + i) for i in range(10)]
     run_T(chk, prop, scen, tag="replay")
-    return 1 if chk.violations or not r.accepted else 0
+    log("re-run of the scenario on the current tree (10 seeds):", "REPRODUCED" if chk.violations else "passes")
+    return 1 if chk.violations else 0
